@@ -20,6 +20,7 @@ type TypeOpts struct {
 	NoIface   bool
 	NoPtrKeys bool // no pointer-typed map keys (encoding/json cannot decode them)
 	NoRaw     bool // no json.RawMessage (its bytes are only preserved up to insignificant white space)
+	BothKeys bool // cat.Both (json.Marshaler and TextMarshaler) may be a map key
 }
 
 var scalarTypes = []reflect.Type{
@@ -89,6 +90,12 @@ func (r *Rng) KeyType(o *TypeOpts) reflect.Type {
 			switch t.Name() {
 			case "NamedInt", "NamedUint8", "NamedString", "TextV", "TextKey", "IntKeyText":
 				ks = append(ks, t)
+			case "Both":
+				// a key type that also is a json.Marshaler (as a key its text method is used,
+				// as a value its JSON method); encode direction only
+				if o.BothKeys {
+					ks = append(ks, t)
+				}
 			case "TextP":
 				if !o.NoPtrKeys {
 					ks = append(ks, reflect.PtrTo(t))
